@@ -6,15 +6,31 @@ mux encoder, an independently written decoder and the reply-header reader over S
     "the Check operators accept every reference frame / reject every single-byte corruption" over
     a bounded domain (and documents the design-level counterexamples of the code-shaped writer);
   * MuxWireTrace.tla validates recorded (input, bytes) pairs produced by the REAL code, in batches.
+  * MuxStreamAbs.tla (stream mode) judges the byte stream of a LIVE connection: the chunks the connection
+    accepted are framed (4-byte length + exactly that many bytes, trailing partial frame only if the
+    connection was closed in mid-write) and every frame is matched against what was supplied: each Tdispatch
+    is the encoding of exactly one supplied dispatch (at most once), each Tdiscarded names the tag of an
+    earlier Tdispatch and carries a reason, each Tping has an empty body;
+  * MuxSendLoop.tla is the code-shaped model of the writer side (callers parking during the open, send queue,
+    single writer greenlet with partial socket writes, ping loop, deadline events) with MuxStreamAbs embedded
+    in lock-step; TLC checks "the delivered stream is the concatenation of the supplied frames in queue
+    order" and returns counterexamples for three seeded designs (shared marshal buffer, ping written
+    directly to the socket, blocked write abandoned at the deadline).
 There is no Python oracle: the driver only supplies inputs and copies out the bytes the code wrote.
 
-Two driving modes (both use only real classes from /repo):
+Three driving modes (all use only real classes from /repo):
   direct  scales.thriftmux.serializer.MessageSerializer.Marshal on an in-memory stream, then the real
           SocketTransportSink._BuildHeader(tag, type, len) -- any tag in [0, 2^24), any deadline;
           ThriftMuxMessageSerializerSink.ReadHeader on the header bytes the writer produced.
   stack   ClientIdInterceptorSink -> ThriftMuxMessageSerializerSink -> SocketTransportSink opened over
           a fake socket on the virtual loop: the frames are exactly what the send loop wrote to the
           socket (Tping of the open handshake, Tdispatch, Tdiscarded after the timeout event).
+  stream  TimeoutSink -> [ClientIdInterceptorSink] -> ThriftMuxMessageSerializerSink -> SocketTransportSink ->
+          VarzSocketWrapper/ScalesSocket over a simulated connection with a send-buffer model (partial
+          writes, write low-water mark) on the virtual loop: calls from concurrent greenlets (also while
+          the connection is still opening), deadlines (Tdiscarded), the periodic ping (scripted period),
+          back-pressure placed around those instants, replies, faults.  Recorded: what the script supplied
+          (contexts incl. client id and deadline + Thrift call) and every chunk the connection accepted.
 The Thrift call inside a Tdispatch is opaque here (C14 owns it): a stand-in "generated" service
 writes a scripted blob; the expected payload is what scales.thrift.serializer produces for the
 same call on its own.
@@ -43,13 +59,23 @@ ASSUMPTIONS = [
   'the reply types (negative types and BAD_Rerr = 127)',
   'Tdiscarded frames taken from the socket: the reason text and the frame\'s own tag are chosen by the '
   'transport, only the discarded tag is an input (reason/tag clauses are evaluated in direct mode)',
+  'stream mode: one connection per trace; the tag of a Tdispatch/Tping is the transport\'s choice (C11), a frame '
+  'is attributed to a supplied dispatch by its Thrift call (the script makes the calls pairwise distinct); '
+  'whether/when a supplied message is written at all is not judged (C12, C02); a Tdiscarded must name the tag of '
+  'an earlier Tdispatch frame of the connection and carry UTF-8 text; a trailing partial frame is accepted only '
+  'if the connection was closed while a write was in progress; the simulated socket accepts what fits its send '
+  'buffer, wakes a blocked sender at the write low-water mark and, like gevent, refuses a second blocked sender',
 ]
 RULE = {'C13': 'records generated from VERIF_SEED: message kind x tag class (byte boundaries + random) x context '
                'dictionaries (0-6 entries; ASCII, 2/3/4-byte code points, empty strings, long strings) x client id x '
                'deadline (boundary and random int64) x opaque payload, plus every context of the bounded model domain '
                '(<= 2 entries over a 1-/2-/3-/4-byte alphabet); ~12 records per trace, one class per trace; '
                'a trace is non-trivial if it has a Tdispatch with a non-empty context, a Tdiscarded or a header '
-               'read-back; distinct by canonical record list'}
+               'read-back; distinct by canonical record list.  Stream mode: seeded timelines in four families '
+               '(calls while the connection opens; periodic ping due while a frame is stuck in the socket; deadline '
+               'expiring while a frame is stuck or queued behind it; random mix with faults/close), ASCII and non-ASCII '
+               'contexts; a stream trace is non-trivial if at least two dispatches were supplied and a write was '
+               'split, a call was issued before the open completed, or a Tdiscarded / periodic Tping was written'}
 
 CLIENT_ID_KEY = 'com.twitter.finagle.thrift.ClientIdContext'    # finagle context names (protocol constants)
 DEADLINE_KEY = 'com.twitter.finagle.Deadline'
@@ -102,7 +128,7 @@ def models(prop, tier):
                 'counterexample (a non-ASCII context string)'),
       dict(module='MuxWireCheck', cfg='MuxWireCheck_asis_hdr.cfg', workers=4, expect_violation='ImplAgrees',
            what='code-shaped ReadHeader as of the snapshot ((256 - b) * -1): counterexample reply type 127'),
-    ]
+    ] + _sendloop_models(True)
   return [
     dict(module='MuxWireCheck', cfg='MuxWireCheck_t.cfg', workers=12, timeout=3000,
          what='5 boundary tags, contexts <= 2 entries (keys <= 2 cp, 231 entries), all 2^24 tags for the 7 protocol types, all 256 type bytes x boundary tags of every 65536-block'),
@@ -110,7 +136,38 @@ def models(prop, tier):
          what='code-shaped _WriteContext as of the snapshot: counterexample'),
     dict(module='MuxWireCheck', cfg='MuxWireCheck_asis_hdr.cfg', workers=4, expect_violation='ImplAgrees',
          what='code-shaped ReadHeader as of the snapshot: counterexample reply type 127'),
-  ]
+  ] + _sendloop_models(False)
+
+
+def _sendloop_models(quick):
+  """MuxSendLoop: the writer side of a connection (stream mode).  TLC's -coverage cannot be used on modules that
+  extend WireBytes (it disables the caching that makes the CRC table constant cheap): the vacuity guard is the
+  expected counterexample of MuxSendLoop_reach.cfg instead."""
+  asis = 'send queue + single writer greenlet + partial writes + ping loop + deadline events, as the code is: ' \
+         'the delivered stream is the concatenation of the supplied frames in queue order, MuxStreamAbs accepts'
+  ms = [dict(module='MuxSendLoop', cfg='MuxSendLoop_q.cfg', workers=8,
+             what=asis + ' (2 calls, 1 deadline, 1 ping, send buffer 16, drains 3/16)')]
+  if not quick:
+    ms += [
+      dict(module='MuxSendLoop', cfg='MuxSendLoop_q2.cfg', workers=8, what=asis + ' (write low-water mark 12)'),
+      dict(module='MuxSendLoop', cfg='MuxSendLoop_t2.cfg', workers=12, timeout=3000,
+           what=asis + ' (2 pings, send buffer 60, 6 initial rooms, 4 drain sizes)'),
+      dict(module='MuxSendLoop', cfg='MuxSendLoop_t3.cfg', workers=12, timeout=3000,
+           what=asis + ' (both calls with deadline, low-water mark 10)'),
+      dict(module='MuxSendLoop', cfg='MuxSendLoop_t.cfg', workers=12, timeout=3000,
+           what=asis + ' (3 calls, 1 deadline, send buffer 16)'),
+      dict(module='MuxSendLoop', cfg='MuxSendLoop_reach.cfg', workers=8, expect_violation='NotAllWritten',
+           what='vacuity guard: a run in which both Tdispatch, a Tdiscarded and a Tping are written exists'),
+    ]
+  for v, design in (('B', 'one marshal buffer shared by all calls (seeded C13-B)'),
+                    ('C', 'ping written to the socket by the ping greenlet, a second writer (seeded C13-C)'),
+                    ('D', 'blocked write abandoned at the message deadline (seeded C13-D)')):
+    ms.append(dict(module='MuxSendLoop', cfg='MuxSendLoop_%s.cfg' % v, workers=2, expect_violation='WholeFramesInOrder',
+                   what='design variant: ' + design + ': counterexample to whole frames in queue order'))
+    if not quick:
+      ms.append(dict(module='MuxSendLoop', cfg='MuxSendLoop_%s_abs.cfg' % v, workers=2, expect_violation='AbsAccepts',
+                     what='design variant: ' + design + ': rejected by the stream machine MuxStreamAbs'))
+  return ms
 
 
 # ------------------------------------------------------------------ input generators
@@ -260,6 +317,191 @@ def cases(prop, tier, seed):
                'why': _text(rng, cls, 40) if rng.random() < 0.8 else 'Client timeout'} for i in range(per)]
       recs.append({'k': 'ping'})
       out.append({'mode': 'direct', 'cls': 'disc-' + cls, 'recs': recs})
+  # stream mode: the byte stream of a live connection (own generator: the cases above keep their seeds)
+  out.extend(_stream_cases(random.Random(104729 * int(seed) + 71), quick))
+  return out
+
+
+# ------------------------------------------------------------------ stream-mode scenario generators
+def _stream_call(rng, n, cls, T=0):
+  """['call', thrift argument (distinct per call), caller properties, timeout ms]."""
+  arg = 'c%d-%s' % (n, _text(rng, cls, 10))
+  return ['call', arg, _props(rng, cls, 3), T]
+
+
+def _stream_base(rng, cls):
+  return {'mode': 'stream', 'cls': cls,
+          'client_id': rng.choice([None, 'cid', _text(rng, cls, 6) or 'me']),
+          'ping_gaps': [rng.randint(30, 40) for _ in range(3)],
+          't0': rng.choice([0, 437, 1000, 86400000, 758826000000]) + rng.choice([0, 1, 250, 999]),
+          'connect_ms': 0, 'ping_reply_ms': 0, 'lowat': 1, 'room0': None}
+
+
+def _stream_openrace(rng, cls):
+  """Calls from concurrent greenlets while the connection is still opening (connect / initial ping round
+  trip pending): they park inside the transport and are framed after the open."""
+  sc = _stream_base(rng, cls)
+  sc['fam'] = 'openrace'
+  sc['connect_ms'] = rng.choice([0, 0, 30])
+  sc['ping_reply_ms'] = rng.choice([20, 60, 200])
+  done = sc['connect_ms'] + sc['ping_reply_ms']
+  steps = [['open']]
+  n = 0
+  t = 0
+  for _ in range(rng.choice([2, 3, 3, 4])):
+    t = min(done - 1, t + rng.choice([0, 0, 1, 5, 10]))
+    steps.append(['at', t])
+    n += 1
+    steps.append(_stream_call(rng, n, cls, rng.choice([0, 0, 0, 15, 500])))
+    if rng.random() < 0.3:
+      steps.append(['run'])
+  steps.append(['at', done + rng.choice([0, 1, 10])])
+  if rng.random() < 0.4:
+    steps.append(['room', rng.choice([4, 8, 30, 100])])
+  for _ in range(rng.choice([0, 1, 2])):
+    n += 1
+    steps.append(_stream_call(rng, n, cls, rng.choice([0, 300])))
+  steps.append(['adv', rng.choice([1, 20])])
+  steps.append(['drain', None])
+  for _ in range(rng.choice([0, 1, 3])):
+    steps.append(['reply', rng.randint(0, 3)])
+  steps.append(['adv', 50])
+  for _ in range(rng.choice([0, 1])):        # a tag comes back into use after a reply
+    n += 1
+    steps.append(_stream_call(rng, n, cls, rng.choice([0, 40])))
+  steps.append(['adv', 100])
+  sc['steps'] = steps
+  return sc
+
+
+def _stream_pingstall(rng, cls):
+  """The periodic ping comes due while a frame is stuck half way in the socket (peer not reading); the
+  socket may regain a little room below its write low-water mark just before."""
+  sc = _stream_base(rng, cls)
+  sc['fam'] = 'pingstall'
+  sc['lowat'] = rng.choice([1, 64, 64, 200])
+  steps = [['open'], ['at', rng.choice([5, 100])]]
+  n = 0
+  for _ in range(rng.choice([0, 1, 2])):
+    n += 1
+    steps.append(_stream_call(rng, n, cls, 0))
+  steps.append(['adv', 10])
+  for _ in range(rng.choice([0, 1])):
+    steps.append(['reply', 0])
+  lead = rng.choice([2, 20, 300, 4000])
+  steps.append(['atping', -lead])
+  steps.append(['room', rng.choice([0, 3, 4, 7, 8, 9, 12, 30, 50, 90])])
+  for _ in range(rng.choice([1, 2, 3])):
+    n += 1
+    steps.append(_stream_call(rng, n, cls, rng.choice([0, 0, lead + 3, 10000])))
+  steps.append(['run'])
+  if rng.random() < 0.7:
+    steps.append(['atping', -1])
+    steps.append(['drain', rng.choice([8, 8, 10, 16, 40])])
+  if rng.random() < 0.3:
+    steps.append(['pingmode', 'silent'])
+  steps.append(['atping', rng.choice([0, 1, 50])])
+  if rng.random() < 0.3:
+    n += 1
+    steps.append(_stream_call(rng, n, cls, rng.choice([0, 30])))
+  if rng.random() < 0.5:
+    steps.append(['drain', rng.choice([5, 20, 60])])
+    steps.append(['adv', rng.choice([1, 100, 5500])])
+  steps.append(['drain', None])
+  steps.append(['adv', 20])
+  for _ in range(rng.choice([0, 2])):
+    steps.append(['reply', rng.randint(0, 3)])
+  steps.append(['adv', 100])
+  sc['steps'] = steps
+  return sc
+
+
+def _stream_deadlinestall(rng, cls):
+  """A call's deadline expires while its frame is blocked in the socket (or while it waits in the send
+  queue behind a blocked frame); the peer resumes reading later."""
+  sc = _stream_base(rng, cls)
+  sc['fam'] = 'deadlinestall'
+  sc['lowat'] = rng.choice([1, 1, 32])
+  steps = [['open'], ['at', rng.choice([10, 1000, 7000])]]
+  n = 0
+  if rng.random() < 0.4:
+    n += 1
+    steps.append(_stream_call(rng, n, cls, 0))
+    steps.append(['adv', 5])
+    steps.append(['reply', 0])
+    steps.append(['adv', 5])
+  steps.append(['room', rng.choice([0, 1, 4, 5, 8, 10, 20, 40, 70, 120])])
+  T = rng.choice([10, 50, 200])
+  n += 1
+  steps.append(_stream_call(rng, n, cls, T))
+  for _ in range(rng.choice([0, 1, 2])):
+    if rng.random() < 0.5:
+      steps.append(['adv', rng.choice([1, T // 2])])
+    n += 1
+    steps.append(_stream_call(rng, n, cls, rng.choice([0, T, 2 * T, 5])))
+  if rng.random() < 0.4:
+    steps.append(['adv', T // 2])
+    steps.append(['drain', rng.choice([1, 3, 8, 30])])
+  steps.append(['adv', rng.choice([T + 10, 3 * T, 1000])])
+  if rng.random() < 0.3:
+    steps.append(['drain', rng.choice([2, 10, 50])])
+    steps.append(['adv', 10])
+  steps.append(['drain', None])
+  steps.append(['adv', 10])
+  n += 1
+  steps.append(_stream_call(rng, n, cls, rng.choice([0, 100])))
+  for _ in range(rng.choice([0, 1, 2])):
+    steps.append(['reply', rng.randint(0, 3)])
+  steps.append(['adv', 200])
+  sc['steps'] = steps
+  return sc
+
+
+def _stream_mixed(rng, cls):
+  """Random timeline: calls, back-pressure, replies, the ping instants, faults, close."""
+  sc = _stream_base(rng, cls)
+  sc['fam'] = 'mixed'
+  sc['connect_ms'] = rng.choice([0, 0, 10])
+  sc['ping_reply_ms'] = rng.choice([0, 0, 25])
+  sc['lowat'] = rng.choice([1, 1, 16, 100])
+  sc['room0'] = rng.choice([None, None, 8, 100])
+  steps = [['open']]
+  n = 0
+  for _ in range(rng.randint(6, 16)):
+    k = rng.random()
+    if k < 0.3:
+      n += 1
+      steps.append(_stream_call(rng, n, cls, rng.choice([0, 0, 5, 40, 300, 20000])))
+    elif k < 0.42:
+      steps.append(['room', rng.choice([0, 2, 6, 8, 11, 25, 60, 150, None])])
+    elif k < 0.54:
+      steps.append(['drain', rng.choice([1, 4, 8, 20, 100, None])])
+    elif k < 0.66:
+      steps.append(['adv', rng.choice([0, 1, 7, 30, 120, 1000])])
+    elif k < 0.76:
+      steps.append(['reply', rng.randint(0, 4)])
+    elif k < 0.86:
+      steps.append(['atping', rng.choice([-50, -3, -1, 0, 1, 20])])
+    elif k < 0.89:
+      steps.append(['fault', rng.choice(['err', 'eof'])])
+    elif k < 0.91:
+      steps.append(['close'])
+    elif k < 0.94:
+      steps.append(['pingmode', rng.choice(['silent', 'answer'])])
+    elif k < 0.97:
+      steps.append(['lowat', rng.choice([1, 8, 64])])
+    else:
+      steps.append(['run'])
+  sc['steps'] = steps
+  return sc
+
+
+def _stream_cases(rng, quick):
+  mult = 1 if quick else 5
+  out = []
+  for fam, n in ((_stream_openrace, 40), (_stream_pingstall, 50), (_stream_deadlinestall, 40), (_stream_mixed, 60)):
+    for i in range(n * mult):
+      out.append(fam(rng, 'ascii' if i % 3 == 0 else 'uni'))
   return out
 
 
@@ -534,13 +776,321 @@ def _run_stack(script, loop):
   return ev, {'mode': 'stack', 'tags_forced': forced, 'errors': [repr(x[1:3]) for x in loop.errors][:3]}
 
 
+# ------------------------------------------------------------------ stream mode: the byte stream of a live connection
+def _stream_conn_class(simnet):
+  """SimConn with a send-buffer model for partial writes (defined after boot: simnet imports gevent).
+
+  `room` = bytes the socket accepts right now (None: unlimited, the peer reads freely).  send() accepts
+  min(room, len) bytes and returns that count, like a non-blocking socket under gevent; with room == 0 the
+  caller blocks until the driver lets the peer read (`drain`) and the free space reaches `lowat` (the
+  socket's write low-water mark).  A second greenlet that would have to block on the same socket gets
+  gevent's ConcurrentObjectUseError.  Send waits have their own waiter (a read may be parked at the same
+  time).  Every accepted chunk is reported to `on_accept` in order: that is the connection's byte stream."""
+  import errno
+  from gevent.hub import Waiter
+  try:
+    from gevent.exceptions import ConcurrentObjectUseError
+  except ImportError:            # pragma: no cover
+    ConcurrentObjectUseError = AssertionError
+
+  class StreamConn(simnet.SimConn):
+    def __init__(self, net, family=None, type_=None):
+      self.room = None
+      self.lowat = 1
+      self._swaiter = None
+      self.on_accept = None
+      self.on_closed = None
+      self.send_failed = False
+      self.blocked_sends = 0
+      self.partial_sends = 0
+      simnet.SimConn.__init__(self, net, family, type_)
+
+    def send(self, data):
+      data = bytes(data)
+      self._check_open()
+      if not self.connected:
+        self.net._log('send_unusable', self)
+        raise OSError(errno.ENOTCONN, 'Transport endpoint is not connected (simulated)')
+      self.opn += 1
+      while True:
+        if self.tx_err is not None:
+          self.send_failed = True
+          self.net._log('send_failed', self)
+          raise self.tx_err
+        if self.room is None or self.room > 0:
+          k = len(data) if self.room is None else min(self.room, len(data))
+          if self.room is not None:
+            self.room -= k
+          chunk = data[:k]
+          if k < len(data):
+            self.partial_sends += 1
+          self.sent += chunk
+          self.net._log('send', self, n=k, data=chunk)
+          if self.on_accept is not None:
+            self.on_accept(chunk)
+          self.net._on_send(self, chunk)
+          return k
+        if self._swaiter is not None:
+          raise ConcurrentObjectUseError('This socket is already used by another greenlet (simulated)')
+        self.net._log('send_stalled', self)
+        self.blocked_sends += 1
+        w = Waiter()
+        self._swaiter = w
+        try:
+          w.get()
+        finally:
+          if self._swaiter is w:
+            self._swaiter = None
+        self._check_open()
+
+    def sendall(self, data):
+      data = bytes(data)
+      while data:
+        k = self.send(data)
+        data = data[k:]
+
+    def _wake_send(self):
+      w = self._swaiter
+      if w is not None and not self.closed:
+        self._swaiter = None
+        w.switch(None)
+
+    def _throw_send(self, exc):
+      w = self._swaiter
+      if w is not None:
+        self._swaiter = None
+        w.throw(exc)
+
+    def _writable(self):
+      if self._swaiter is not None and (self.room is None or self.room >= max(1, self.lowat) or
+                                        self.tx_err is not None):
+        self.net.loop.run_callback(self._wake_send)
+
+    def set_room(self, n):
+      self.room = n
+      self._writable()
+
+    def drain(self, n):
+      """The peer reads n bytes (None: everything, and keeps reading)."""
+      if n is None or self.room is None:
+        self.room = None
+      else:
+        self.room += n
+      self._writable()
+
+    def feed_error(self, exc=None):
+      simnet.SimConn.feed_error(self, exc)
+      self._writable()
+
+    def close(self):
+      if self.closed:
+        return
+      mid = self._swaiter is not None or self.send_failed
+      if self.on_closed is not None:
+        self.on_closed(mid)
+      simnet.SimConn.close(self)
+      if self._swaiter is not None:
+        self.net.loop.run_callback(self._throw_send,
+                                   OSError(errno.EBADF, 'Bad file descriptor (simulated: closed during wait)'))
+
+  return StreamConn
+
+
+def _run_stream(script, loop):
+  """The real client sink stack  TimeoutSink -> [ClientIdInterceptorSink] -> ThriftMuxMessageSerializerSink ->
+  thriftmux SocketTransportSink -> VarzSocketWrapper/ScalesSocket  over a simulated connection, driven by a
+  scripted timeline (calls from concurrent greenlets, deadlines, the periodic ping, write back-pressure,
+  replies, faults).  Recorded: what the test supplied (Sup: contexts + Thrift call, computed from the
+  script, never read back from the stack) and every chunk of bytes the connection accepted (Bytes)."""
+  import gevent
+  from harness.simgevent import simnet, peers
+  from harness.simgevent.vloop import EPOCH
+  t0 = script.get('t0', 0)
+  loop.advance_to(EPOCH + t0 / 1000.0)        # before scales is imported: its 1 s clock tick starts here
+  if abs(loop.now() - (EPOCH + t0 / 1000.0)) > 1e-6:
+    raise RuntimeError('harness: could not place the clock')
+  import scales.scales_socket as ss
+  import scales.thriftmux.sink as tmsink
+  from scales.compat import BytesIO
+  from scales.constants import SinkProperties, MessageProperties
+  from scales.loadbalancer.zookeeper import Endpoint
+  from scales.message import MethodCallMessage, Deadline
+  from scales.sink import ClientMessageSink, ClientMessageSinkStack, TimeoutSinkProvider
+  from scales.thrift.serializer import MessageSerializer as ThriftSerializer
+  from scales.thriftmux.sink import (SocketTransportSink, ThriftMuxMessageSerializerSink,
+                                     ClientIdInterceptorSink)
+  from test.scales.thrift.gen_py.hello import Hello
+
+  loop.settle()
+  net = simnet.SimNet(loop).install()
+  StreamConn = _stream_conn_class(simnet)
+  ss.gsocket = lambda family=None, type_=None, *a, **kw: StreamConn(net, family, type_)
+
+  ev = []
+  st = {'next_ping': None, 'pings_due': 0, 'open_done': False, 'early_calls': 0, 'closed': False,
+        'delivered': 0, 'errors': 0}
+  gaps = list(script.get('ping_gaps', []))
+
+  class _Rnd(object):            # the ping period (30..40 s) is scripted
+    def randint(self, a, b):
+      g = gaps.pop(0) if gaps else 35
+      g = min(max(g, a), b)
+      st['next_ping'] = loop.now() + g
+      st['pings_due'] += 1
+      return g
+  tmsink.random = _Rnd()
+
+  peer = peers.MuxPeer(net, ping_delay=script.get('ping_reply_ms', 0) / 1000.0)
+  net.peer_factory = lambda c: peer
+
+  def on_connect_start(conn):
+    if conn.idx != 0:
+      raise RuntimeError('harness: stream mode expects one connection per trace')
+    conn.connect_plan = ('ok', script.get('connect_ms', 0) / 1000.0)
+    conn.lowat = script.get('lowat', 1)
+    conn.room = script.get('room0')
+    conn.on_accept = lambda chunk: ev.append({'e': 'Bytes', 'data': list(bytearray(chunk))})
+
+    def on_closed(mid):
+      st['closed'] = True
+      ev.append({'e': 'Closed', 'mid': 1 if mid else 0})
+    conn.on_closed = on_closed
+  net.on_connect_start = on_connect_start
+
+  tprov = SocketTransportSink.Builder()
+  ser = ThriftMuxMessageSerializerSink.Builder()
+  ser.next_provider = tprov
+  below = ser
+  client_id = script.get('client_id')
+  if client_id is not None:
+    below = ClientIdInterceptorSink.Builder(client_id=client_id)
+    below.next_provider = ser
+  top_prov = TimeoutSinkProvider()
+  top_prov.next_provider = below
+  top = top_prov.CreateSink({SinkProperties.Endpoint: Endpoint('10.0.0.1', 9090), SinkProperties.Label: 'svc',
+                             SinkProperties.ServiceInterface: Hello.Iface})
+  thrift = ThriftSerializer(Hello.Iface)
+
+  class Terminal(ClientMessageSink):
+    def AsyncProcessRequest(self, *a):
+      raise NotImplementedError()
+
+    def AsyncProcessResponse(self, sink_stack, context, stream, msg):
+      st['delivered'] += 1
+      if msg is None or getattr(msg, 'error', None) is not None:
+        st['errors'] += 1
+  terminal = Terminal()
+
+  def conn():
+    return net.conns[0] if net.conns else None
+
+  def do_open():
+    try:
+      top.Open().wait()
+    except Exception:
+      pass
+    st['open_done'] = True
+
+  def call(arg, props, T):
+    msg = MethodCallMessage(Hello.Iface, 'hi', (arg,), {})
+    msg.properties[MessageProperties.Endpoint] = None      # as MessageDispatcher does; private, never transported
+    ctx = []
+    for k, v in props:
+      msg.properties[k] = v
+      ctx.append(_text_entry(k, v))
+    if client_id is not None:
+      ctx.append(_text_entry(CLIENT_ID_KEY, client_id))
+    if T:
+      now = loop.now()
+      deadline = now + T / 1000.0
+      msg.properties[Deadline.KEY] = deadline
+      # Deadline context as documented: (timestamp of the call in whole seconds, absolute deadline), in ns
+      ctx.append(_dl_entry(int(now) * 10 ** 9, int(deadline * 1000000000)))
+    b = BytesIO()
+    thrift.SerializeThriftCall(msg, b)                     # the Thrift call as its own serializer writes it (C14)
+    ev.append({'e': 'Sup', 'ctx': ctx, 'payload': list(bytearray(b.getvalue()))})
+    if not st['open_done']:
+      st['early_calls'] += 1
+    stack = ClientMessageSinkStack()
+    stack.Push(terminal, arg)
+    gevent.spawn(top.AsyncProcessRequest, stack, msg, None, {})
+
+  def run_to(t):
+    if t > loop.now():
+      loop.run_until(t)
+
+  for op in script['steps']:
+    k = op[0]
+    if k == 'open':
+      gevent.spawn(do_open)
+      loop.run_until_idle()
+    elif k == 'at':
+      run_to(EPOCH + (t0 + op[1]) / 1000.0)
+    elif k == 'adv':
+      loop.run_for(op[1] / 1000.0)
+    elif k == 'atping':          # relative to the instant the next periodic ping is due
+      if st['next_ping'] is not None:
+        run_to(st['next_ping'] + op[1] / 1000.0)
+    elif k == 'call':
+      call(op[1], op[2], op[3])
+    elif k == 'run':
+      loop.run_until_idle()
+    elif k == 'room':
+      if conn() is not None and not conn().closed:
+        conn().set_room(op[1])
+    elif k == 'drain':
+      if conn() is not None and not conn().closed:
+        conn().drain(op[1])
+    elif k == 'lowat':
+      if conn() is not None:
+        conn().lowat = op[1]
+    elif k == 'reply':
+      un = [p for p in peer.unanswered() if not p.conn.closed and p.reply is not None]
+      if un:
+        peer.release(un[op[1] % len(un)])
+    elif k == 'pingmode':
+      peer.ping_mode = op[1]
+    elif k == 'fault':
+      c = conn()
+      if c is not None and c.connected and not c.closed:
+        if op[1] == 'err':
+          c.feed_error()
+        else:
+          c.feed_eof()
+    elif k == 'close':
+      top.Close()
+      loop.run_until_idle()
+    else:
+      raise RuntimeError('harness: unknown stream step %r' % (op,))
+  # end of observation: the peer reads everything; run past every deadline and ping timeout
+  c = conn()
+  if c is not None and not c.closed:
+    c.lowat = 1
+    c.drain(None)
+  loop.run_for(6.0)
+  loop.settle()
+  if c is not None and not c.closed and c._swaiter is not None:
+    raise RuntimeError('harness: a write is still blocked at the end of the scenario')
+  ev.append({'e': 'End'})
+  meta = {'mode': 'stream', 'early_calls': st['early_calls'], 'pings_due': st['pings_due'],
+          'closed': st['closed'], 'delivered': st['delivered'], 'call_errors': st['errors'],
+          'partial_sends': c.partial_sends if c is not None else 0,
+          'blocked_sends': c.blocked_sends if c is not None else 0,
+          'srv_frames': [[f[2], f[3]] for f in peer.frames][:60],
+          'errors': [list(x[1:3]) for x in loop.errors][:4]}
+  return ev, meta
+
+
 def run_case(script):
   loop = common.boot()
-  if script['mode'] == 'stack':
+  if script['mode'] == 'stream':
+    ev, meta = _run_stream(script, loop)
+  elif script['mode'] == 'stack':
     ev, meta = _run_stack(script, loop)
   else:
     ev, meta = _run_direct(script, loop)
-  return {'cfg': {'mode': script['mode'], 'cls': script.get('cls', '')}, 'ev': ev, 'meta': meta}
+  return {'cfg': {'mode': script['mode'], 'cls': script.get('cls', ''), 'fam': script.get('fam', '')}, 'ev': ev,
+          'meta': meta}
 
 
 # ------------------------------------------------------------------ classification
@@ -552,7 +1102,20 @@ def _non_ascii(e):
   return False
 
 
+def _frames_of(t):
+  """(type, tag) of the frames the simulated server received (coverage / witness only)."""
+  return [tuple(f) for f in t.get('meta', {}).get('srv_frames', [])]
+
+
 def nontrivial(prop, t):
+  if t['cfg'].get('mode') == 'stream':
+    m = t.get('meta', {})
+    fr = _frames_of(t)
+    if sum(1 for e in t['ev'] if e['e'] == 'Sup') >= 2 and (
+        m.get('partial_sends') or m.get('early_calls') or any(ty == 66 for ty, _ in fr) or
+        sum(1 for ty, _ in fr if ty == 65) > 1):
+      return common.canon(t['ev'])
+    return None
   for e in t['ev']:
     if (e['e'] == 'Disp' and e['ctx']) or e['e'] == 'Disc' or (e['e'] == 'Hdr' and e['read']):
       return common.canon(t['ev'])
@@ -564,6 +1127,11 @@ def witness(prop, t, consumed, clause):
     return {}
   e = t['ev'][consumed]
   w = {'kind': e['e']}
+  if t['cfg'].get('mode') == 'stream':
+    m = t.get('meta', {})
+    w.update({'family': t['cfg'].get('fam'), 'split_writes': bool(m.get('partial_sends')),
+              'calls_before_open': m.get('early_calls', 0) > 0, 'closed': bool(m.get('closed'))})
+    return w
   if e['e'] == 'Hdr':
     w['type'] = e['type']
   else:
@@ -584,6 +1152,26 @@ def extra_coverage(prop, tier, traces):
         via_socket += 1
       if 'tag' in e:
         tags.add(e['tag'])
-  return {'records': sum(kinds.values()), 'records_by_kind': kinds, 'records_non_ascii': nonascii,
+  st = {'traces': 0, 'by_family': {}, 'dispatches_supplied': 0, 'chunks': 0, 'bytes': 0, 'with_split_writes': 0,
+        'with_calls_before_open': 0, 'with_tdiscarded': 0, 'with_periodic_ping': 0, 'connection_closed': 0,
+        'closed_in_mid_write': 0}
+  for t in traces:
+    if t['cfg'].get('mode') != 'stream':
+      continue
+    m = t.get('meta', {})
+    fr = _frames_of(t)
+    st['traces'] += 1
+    st['by_family'][t['cfg'].get('fam')] = st['by_family'].get(t['cfg'].get('fam'), 0) + 1
+    st['dispatches_supplied'] += sum(1 for e in t['ev'] if e['e'] == 'Sup')
+    st['chunks'] += sum(1 for e in t['ev'] if e['e'] == 'Bytes')
+    st['bytes'] += sum(len(e['data']) for e in t['ev'] if e['e'] == 'Bytes')
+    st['with_split_writes'] += 1 if m.get('partial_sends') else 0
+    st['with_calls_before_open'] += 1 if m.get('early_calls') else 0
+    st['with_tdiscarded'] += 1 if any(ty == 66 for ty, _ in fr) else 0
+    st['with_periodic_ping'] += 1 if sum(1 for ty, _ in fr if ty == 65) > 1 else 0
+    st['connection_closed'] += 1 if m.get('closed') else 0
+    st['closed_in_mid_write'] += 1 if any(e['e'] == 'Closed' and e['mid'] for e in t['ev']) else 0
+  return {'stream_mode': st,
+          'records': sum(kinds.values()), 'records_by_kind': kinds, 'records_non_ascii': nonascii,
           'frames_taken_from_socket': via_socket, 'distinct_tags': len(tags),
           'boundary_tags_seen': sorted(tg for tg in tags if tg in TAG_BOUNDARY)}
